@@ -10,7 +10,7 @@
      result rows of high level selects are compared with SQLite's rows by TLC (TraceCalls.tla `rows` events).
 """
 import json, math, os, random, shutil, sqlite3, struct
-from vlib import common, values, gen, sqlitefmt, btrace
+from vlib import common, values, gen, sqlitefmt, btrace, pagebuilder
 from vlib.common import Infra
 
 PROP_OF_FLAG = {"complete": None, "stop": "C17", "fault": "C12", "lockfail": "C12", "lock": "C06"}
@@ -34,16 +34,18 @@ def build_suite(tier, rnd, only=None):
             ("C", dict(page_size=512, n=130, longkeys=True, pad=100, deep_rows=230)),
             ("D", dict(page_size=4096, n=120, auto_vacuum="FULL"))]
     if tier == "thorough":
-        plan = [("A", dict(page_size=512, n=500)), ("B", dict(page_size=1024, n=400, vacuum=True)),
-                ("C", dict(page_size=512, n=260, longkeys=True, deep_rows=2600)), ("D", dict(page_size=4096, n=500, auto_vacuum="FULL")),
-                ("E", dict(page_size=2048, n=300, auto_vacuum="INCREMENTAL")), ("F", dict(page_size=8192, n=300)),
-                ("G", dict(page_size=16384, n=200)), ("H", dict(page_size=32768, n=150)), ("I", dict(page_size=65536, n=150)),
-                ("J", dict(page_size=512, n=2500, extreme=True))]
+        plan = [("A", dict(page_size=512, n=400)), ("B", dict(page_size=1024, n=300, vacuum=True)),
+                ("C", dict(page_size=512, n=220, longkeys=True, deep_rows=900)), ("D", dict(page_size=4096, n=400, auto_vacuum="FULL")),
+                ("E", dict(page_size=2048, n=250, auto_vacuum="INCREMENTAL")), ("F", dict(page_size=8192, n=250)),
+                ("G", dict(page_size=16384, n=150)), ("H", dict(page_size=32768, n=120)), ("I", dict(page_size=65536, n=120)),
+                ("J", dict(page_size=512, n=1500, extreme=True))]
     suite = []
     if not only or "Z" in only:
         path = os.path.join(d, "Z.db")
         desc = gen.zoo_db(path, 512 if tier == "quick" else 1024, random.Random(rnd.randrange(1 << 30)), n=110 if tier == "quick" else 600)
         suite.append({"name": "Z", "path": path, "desc": desc, "tdb": btrace.TraceDB(path, "Z"), "kw": {"zoo": True}})
+    if not only or "P" in only:
+        suite += pagebuilt_suite(tier, rnd, d)
     for name, kw in plan:
         if only and name not in only:
             continue
@@ -54,12 +56,73 @@ def build_suite(tier, rnd, only=None):
     return suite
 
 
+def budget_for(n, base, floor=8):
+    """operations per object, scaled down for large trees (TLC evaluates the Reference over the whole tree per operation)"""
+    return max(floor, min(base, base * 150 // max(n, 1)))
+
+
+def _single_kid(sh):
+    return sh["k"] == "I" and (len(sh["kids"]) == 1 or any(_single_kid(k) for k in sh["kids"]))
+
+
+def pagebuilt_suite(tier, rnd, d):
+    """Databases built page by page from the tree SHAPES MC_BTree.tla enumerates (mode A): forms real SQLite rarely
+    writes -- one-cell leaves, two-child interior pages at every level, stale separators, interior index entries next to
+    overflowing ones.  Every image is validated by real SQLite before use (the builder is not trusted).  Shapes with a
+    one-child interior page are left out: SQLite itself calls such a file malformed."""
+    shapes = [s for s in pagebuilder.shapes(3, 3, 2, 2) if not _single_kid(s) and s != {"k": "L", "n": 0}]
+    deep = [s for s in shapes if s["k"] == "I" and any(k["k"] == "I" for k in s["kids"])]
+    flat = [s for s in shapes if s not in deep]
+    if tier == "quick":
+        chosen = rnd.sample(deep, 5) + rnd.sample(flat, 3)
+    else:
+        chosen = shapes
+    out = []
+    n = 0
+    for sh in chosen:
+        variants = []
+        for ovf in (False, True):
+            variants.append((False, rnd.random() < 0.5, "distinct", ovf))
+            for pat in (["pairs", "triples"] if tier == "quick" else ["distinct", "pairs", "same", "triples"]):
+                variants.append((True, False, pat, ovf))
+        if tier == "quick":
+            variants = rnd.sample(variants, 3)
+        for is_index, stale, pat, ovf in variants:
+            data, expect = pagebuilder.build(sh, is_index, stale=stale, pattern=pat, ovf=ovf, page_size=512)
+            name = "P%d" % n
+            n += 1
+            path = os.path.join(d, name + ".db")
+            open(path, "wb").write(data)
+            con = sqlite3.connect(path)
+            try:
+                ic = con.execute("PRAGMA integrity_check").fetchall()
+                if is_index:
+                    rows = con.execute("SELECT k, rowid FROM t INDEXED BY ti ORDER BY k, rowid").fetchall()
+                else:
+                    rows = con.execute("SELECT id, v FROM t ORDER BY id").fetchall()
+            except sqlite3.DatabaseError as e:
+                raise Infra("page builder produced an image SQLite rejects (%s): shape %s" % (e, json.dumps(sh)))
+            finally:
+                con.close()
+            if ic != [("ok",)] or rows != [tuple(x) for x in expect]:
+                raise Infra("page builder image fails SQLite's validation: %r shape %s" % (ic[:2], json.dumps(sh)))
+            desc = gen.describe(path)
+            out.append({"name": name, "path": path, "desc": desc, "tdb": btrace.TraceDB(path, name),
+                        "kw": {"built_from_shape": sh, "index": is_index, "stale": stale, "pattern": pat, "overflow": ovf}})
+    return out
+
+
 def suite_summary(suite):
     out = []
     for s in suite:
         t = s["tdb"]
+        if s["name"].startswith("P"):
+            continue
         out.append({"db": s["name"], "page_size": t.f.page_size, "pages": t.f.npages,
                     "depth": {k: t.f.depth(o["rootpage"]) for k, o in t.objects.items() if o["rootpage"]}})
+    np = sum(1 for s in suite if s["name"].startswith("P"))
+    if np:
+        out.append({"page_built_images_from_model_shapes": np})
     return out
 
 
@@ -252,10 +315,12 @@ def cut_keys(tdb, root, ncols, rnd, budget):
         if len(keys) > budget:
             break
     add(list(recs[0]) + [("i", 1)])      # longer than the stored records
+    add(list(recs[len(recs) // 2]) + [("n",)])
+    add(list(recs[-1]) + [("t", b"x"), ("i", 0)])
     if len(keys) > budget:
-        head, tail = keys[:8], keys[8:]
+        head, tail, last = keys[:8], keys[8:-3], keys[-3:]
         rnd.shuffle(tail)
-        keys = head + tail[:budget - 8]
+        keys = head + tail[:max(0, budget - 11)] + last
     return keys
 
 
